@@ -677,7 +677,16 @@ class Output(object):
         self.witness_type = witness_type
 
         if self._address_obj:
-            self.script_type = self._address_obj.script_type if script_type is None else script_type
+            if script_type is None:
+                script_type = self._address_obj.script_type
+                # Address objects of keys are named after the unlocking script (sig_pubkey, p2sh_multisig, p2sh_p2wpkh,
+                # p2sh_p2wsh). The output needs the locking script of the address: p2pkh, p2sh, p2wpkh or p2wsh
+                if script_type in ['sig_pubkey', 'p2sh_multisig', 'p2sh_p2wpkh', 'p2sh_p2wsh']:
+                    if self._address_obj.encoding == 'bech32':
+                        script_type = 'p2wsh' if len(self._address_obj.hash_bytes) == 32 else 'p2wpkh'
+                    else:
+                        script_type = 'p2pkh' if script_type == 'sig_pubkey' else 'p2sh'
+            self.script_type = script_type
             # if not script_type:
             #     script_type = script_type_default(address.witness_type, address.multisig, True)
             self.public_hash = self._address_obj.hash_bytes
